@@ -673,11 +673,18 @@ class Consumer(object):
             log.warning("%r: Still failing fetching offset from kafka: %r", self, failure)
         self._retry_fetch()
 
-    def _clear_processor_deferred(self, result):
-        self._processor_d = None  # It has fired, we can clear it
+    def _clear_processor_deferred(self, result, d=None):
+        if d is None or self._processor_d is d:
+            self._processor_d = None  # It has fired, we can clear it
         return result
 
-    def _update_processed_offset(self, result, offset):
+    def _update_processed_offset(self, result, offset, run=None):
+        if run is not None and run != self._run:
+            # The processor's deferred outlived its cancellation by stop()
+            # (it cleaned up asynchronously): that run is over, nothing of
+            # it counts as processed any more.
+            log.debug("%s: processor of a stopped run returned %r at offset %d", self, result, offset)
+            return
         log.debug("%s: processor returned %r at offset %d", self, result, offset)
         self._last_processed_offset = offset
         self._auto_commit(by_count=True)
@@ -833,7 +840,7 @@ class Consumer(object):
         if self._start_d is not None and not self._start_d.called:
             self._start_d.errback(failure)
 
-    def _handle_processor_error(self, failure):
+    def _handle_processor_error(self, failure, run=None):
         """Handle a failure in the processing of a block of messages
 
         This method is called when the processor func fails while processing
@@ -845,6 +852,10 @@ class Consumer(object):
         # deferred is just the cancelling we initiated.  If so, we skip
         # notifying via the _start_d deferred, as it will be 'callback'd at the
         # end of stop()
+        if run is not None and run != self._run:
+            # The failure of a processor call of a run that has been stopped
+            # since: not the business of the start() deferred of a later run
+            return failure
         if not (self._stopping and failure.check(CancelledError)):
             if self._start_d:  # Make sure we're not already stopped
                 self._start_d.errback(failure)
@@ -1054,11 +1065,11 @@ class Consumer(object):
                 return
             self._processor_d = d
             # Once the processor completes, clear our _processor_d
-            d.addBoth(self._clear_processor_deferred)
+            d.addBoth(self._clear_processor_deferred, d)
             # Record the offset of the last processed message and check autocommit
-            d.addCallback(self._update_processed_offset, last_offset)
+            d.addCallback(self._update_processed_offset, last_offset, run)
             # Add an error handler
-            d.addErrback(self._handle_processor_error)
+            d.addErrback(self._handle_processor_error, run)
             # If we were stopped, cancel the processor deferred. Note, we have to
             # do this here, in addition to in stop() because the processor func
             # itself could have called stop(), and then when it returned, we re-set
@@ -1073,6 +1084,10 @@ class Consumer(object):
                     # The processor failed (reported by _handle_processor_error).
                     # Leave the block unfinished: nothing more may be delivered
                     # or counted as processed until the consumer is restarted.
+                    return
+                if self._run != run:
+                    # stop() cancelled the processor's deferred, but it fired
+                    # only now (it cleaned up first): the run is long over
                     return
                 proc_block_begin = proc_block_end
                 proc_block_end += proc_block_size
